@@ -123,6 +123,11 @@ impl Heap {
         Value::Lambda(LambdaPointer::new(self.insert(HeapValue::Lambda(lambda))))
     }
 
+    /// The index the next inserted cell will get
+    pub fn next_index(&self) -> usize {
+        self.values.len()
+    }
+
     pub fn get(&self, id: usize) -> Option<&HeapValue> {
         self.values.get(id)
     }
